@@ -56,4 +56,5 @@ def build():
     # state merging at if-joins keeps StrategyBase.update at tens of paths; for the non-linear sizing
     # search of allocate separate paths are much easier for the solver
     options = {"bt.core.SecurityBase.allocate": dict(merge=False)}
-    return dict(contracts=C, verifiers=verifiers, inline=inline, loops=loops, options=options)
+    concrete_checks = {"bt.core.SecurityBase.allocate": ca.alloc_concrete_check}
+    return dict(contracts=C, verifiers=verifiers, inline=inline, loops=loops, options=options, concrete_checks=concrete_checks)
